@@ -64,7 +64,10 @@ fn run_hmc(n: usize, seed: u64, progress: bool) -> String {
 }
 fn run_nuts(n: usize, seed: u64, progress: bool) -> String {
     let target = Rosenbrock2D::<f32> { a: 1.0, b: 3.0 };
-    let mut s = NUTS::<f32, B32, _>::new(target, init_with_seed(n, 2, 7), 0.8).set_seed(seed);
+    // chains 2k and 2k+1 start from the SAME position (identical starts are explicitly part of the property)
+    let base = init_with_seed::<f32>(n, 2, 7);
+    let inits: Vec<Vec<f32>> = (0..n).map(|i| base[i / 2].clone()).collect();
+    let mut s = NUTS::<f32, B32, _>::new(target, inits, 0.8).set_seed(seed);
     let out = if progress { s.run_progress(8, 4).unwrap().0 } else { s.run(8, 4) };
     fnv(out.into_data().convert::<f64>().to_vec::<f64>().unwrap().into_iter().map(|x| x.to_bits()))
 }
